@@ -230,3 +230,24 @@ def check(ctx):
             ctx.add("5.remote-is-finalized", "PROV", atom_match(oo.atoms(ag[0]["rv"]["ops"][f.index("remote")]), f"call:{ST}::state_builder::EthRemote::finalized"),
                     "EthState.remote = finalized()", sites=[str(ag[0].get("line"))], site_key="remote")
 
+    # -- 7. the synced height is only moved to a height the storage really holds --
+    with ctx.clause("7.synced-height-follows-storage"):
+        RUN = "fuel_core_relayer::service::run"
+        ru = F.unit(f"{RUN}::run")
+        rb = ctx.body_with(ru, f"{RUN}::RelayerData::storage_da_block_height")
+        sh = ctx.one_call(rb, f"{RUN}::RelayerData::storage_da_block_height")
+        sl = ctx.one_call(rb, "fuel_core_relayer::service::state::EthState::set_local")
+        us = ctx.one_call(rb, f"{RUN}::RelayerData::update_synced")
+        some, _ = ctx.ok_edges(sh)
+        ctx.add("7.local-updated-only-if-storage-has-a-height", "GUARD", bool(some) and rb.path([sh.target], [sl.bb, us.bb], cut_edges=set(some)) is None,
+                "set_local / update_synced run only on the Some edge of storage_da_block_height(): an empty database keeps the initial synced height (deploy height - 1) "
+                "instead of dropping to 0", sites=[sl.where(), us.where()], site_key="some")
+        at = Origins(rb, 1).atoms(sl.args[1])
+        dfl = [c for c in rb.calls if c.bb in rb.live and c.name in ("unwrap_or_default", "unwrap_or", "unwrap_or_else") and
+               atom_match(Origins(rb, 1).atoms(c.args[0]), f"call:{RUN}::RelayerData::storage_da_block_height")]
+        ctx.add("7.local-is-the-stored-height", "PROV", atom_match(at, f"call:{RUN}::RelayerData::storage_da_block_height") and not dfl,
+                "the new local height is the stored finalized height itself (no default substituted for a missing one)", sites=[sl.where()] + [c.where() for c in dfl], site_key="val")
+        dl = ctx.one_call(rb, f"{RUN}::RelayerData::download_logs")
+        ctx.add("7.storage-read-after-download", "ORDER", rb.path([dl.target], [sh.bb]) is not None and rb.path([sh.target], [dl.bb]) is None,
+                "the stored height is read after the download attempt (also when it failed half-way)", sites=[sh.where()], site_key="ord")
+        ctx.flows("7.download-result-returned", dl, to_return=True)
